@@ -72,8 +72,8 @@ def ensure_tool():
 
 
 def _run_rsfacts(args):
-    cdb, unit, config, extra, out = args
-    cmd = [RSFACTS, "-p", cdb, "--root", REPO, "--config", config, "-o", out,
+    cdb, unit, config, extra, out, repo = args
+    cmd = [RSFACTS, "-p", cdb, "--root", repo, "--config", config, "-o", out,
            "--extra-arg=-resource-dir=" + RESOURCE_DIR, "--extra-arg=-w"]
     cmd += ["--extra-arg=" + e for e in extra]
     cmd.append(unit)
@@ -95,18 +95,26 @@ def _prune_cache(keep):
         shutil.rmtree(p, ignore_errors=True)
 
 
-def build_facts(configs=("asbuilt",), repo=REPO, verbose=False):
-    """Return the directory holding <config>/<unit>.json for the current tree, building it if needed."""
+def build_facts(configs=("asbuilt",), repo=REPO, verbose=False, cache_root=None, cdb_from=None):
+    """Return the directory holding <config>/<unit>.json for the current tree, building it if needed.
+
+    cache_root / cdb_from are used by the self-validation: facts of a mutated scratch copy are kept inside the
+    scratch directory, and its compile database is the real one with the repository path rewritten."""
     ensure_tool()
-    os.makedirs(os.path.join(CACHE, "facts"), exist_ok=True)
+    cache_root = cache_root or os.path.join(CACHE, "facts")
+    os.makedirs(cache_root, exist_ok=True)
     h = tree_hash(repo)
-    d = os.path.join(CACHE, "facts", h)
-    lock = open(os.path.join(CACHE, "facts", ".lock"), "w")
+    d = os.path.join(cache_root, h)
+    lock = open(os.path.join(cache_root, ".lock"), "w")
     fcntl.flock(lock, fcntl.LOCK_EX)
     try:
         os.makedirs(d, exist_ok=True)
         cdb = os.path.join(d, "cdb")
         ccj = os.path.join(cdb, "compile_commands.json")
+        if not os.path.exists(ccj) and cdb_from:
+            os.makedirs(cdb, exist_ok=True)
+            txt = open(os.path.join(cdb_from[0], "compile_commands.json")).read()
+            open(ccj, "w").write(txt.replace(cdb_from[1].rstrip("/") + "/", repo.rstrip("/") + "/"))
         if not os.path.exists(ccj):
             shutil.rmtree(cdb, ignore_errors=True)
             os.makedirs(cdb)
@@ -125,7 +133,7 @@ def build_facts(configs=("asbuilt",), repo=REPO, verbose=False):
             for u in units:
                 out = os.path.join(d, cfg, os.path.relpath(u, repo).replace("/", "__") + ".json")
                 if not os.path.exists(out):
-                    jobs.append((cdb, u, cfg, CONFIGS[cfg], out))
+                    jobs.append((cdb, u, cfg, CONFIGS[cfg], out, repo))
         if jobs:
             t0 = time.time()
             with concurrent.futures.ThreadPoolExecutor(max_workers=16) as ex:
@@ -135,7 +143,8 @@ def build_facts(configs=("asbuilt",), repo=REPO, verbose=False):
                         raise AnalysisBroken("rsfacts failed on %s [%s]:\n%s" % (unit, cfg, out))
             if verbose:
                 print("facts: %d unit-configs extracted in %.1fs" % (len(jobs), time.time() - t0), file=sys.stderr)
-        _prune_cache(h)
+        if cache_root == os.path.join(CACHE, "facts"):
+            _prune_cache(h)
         return d, units
     finally:
         fcntl.flock(lock, fcntl.LOCK_UN)
